@@ -167,9 +167,9 @@ MANIFEST = {
              "holding (guard on the surviving arm, clamp, or clamp-to-zero helper), so no holding can become negative and no "
              "more than what is held can be taken; the wallet primitives and broker swaps equal their reference ledgers. "
              "Enumerated from the source, so a new unguarded decrement is reported. A scalar parameter of a user operation "
-             "that reaches a wallet primitive or a holding update is rejected when negative before anything moves (15 operations "
-             "are not: listed known findings, reproduced against the real code).",
+             "that reaches a wallet primitive or a holding update is rejected when negative before anything moves (20 "
+             "(operation, parameter) pairs are not: listed known findings, reproduced against the real code).",
     "note": "Trusted: positivity of indices/prices; the opt-in negative-balance configuration is an explicit exception. Not "
             "decided: value conservation across operation sequences; negative amounts that reach the holdings only through "
-            "opaque liquidity / pool math (UniLpMarket.add_liquidity*, GmxV2Market.deposit: reproduced, not decided by R-POS).",
+            "opaque pool math (GmxV2Market.deposit: reproduced, not decided by R-POS).",
 }
